@@ -19,6 +19,38 @@ from sa.selftest import _copy_pkg  # noqa: E402
 from sa.alpha import Renamer  # noqa: E402
 
 
+class Wrap(ast.NodeTransformer):
+    """Body of every function (after its docstring) wrapped in `if True:`."""
+
+    def _do(self, node):
+        self.generic_visit(node)
+        body = node.body
+        head = []
+        if body and isinstance(body[0], ast.Expr) and isinstance(body[0].value, ast.Constant) and isinstance(body[0].value.value, str):
+            head, body = body[:1], body[1:]
+        if body and not any(isinstance(x, (ast.Global, ast.Nonlocal)) for x in body):
+            node.body = head + [ast.If(test=ast.Constant(value=True), body=body, orelse=[])]
+        return node
+
+    visit_FunctionDef = _do
+    visit_AsyncFunctionDef = _do
+
+
+class Noise(ast.NodeTransformer):
+    """`log.debug("trace")` inserted as the first statement of every function."""
+
+    def _do(self, node):
+        self.generic_visit(node)
+        body = node.body
+        k = 1 if body and isinstance(body[0], ast.Expr) and isinstance(body[0].value, ast.Constant) and isinstance(body[0].value.value, str) else 0
+        call = ast.Expr(value=ast.Call(func=ast.Attribute(value=ast.Name(id="log", ctx=ast.Load()), attr="debug", ctx=ast.Load()), args=[ast.Constant(value="trace")], keywords=[]))
+        node.body = body[:k] + [call] + body[k:]
+        return node
+
+    visit_FunctionDef = _do
+    visit_AsyncFunctionDef = _do
+
+
 def main():
     mode, dst = sys.argv[1], sys.argv[2]
     if os.path.exists(dst):
@@ -33,6 +65,12 @@ def main():
                 tree = ast.parse(open(p, encoding="utf-8").read())
                 if mode == "rename":
                     tree = Renamer().visit(tree)
+                elif mode == "wrap":
+                    tree = Wrap().visit(tree)
+                elif mode == "noise":
+                    has_log = any(isinstance(x, ast.Assign) and any(isinstance(t, ast.Name) and t.id == "log" for t in x.targets) for x in tree.body)
+                    if has_log:
+                        tree = Noise().visit(tree)
                 ast.fix_missing_locations(tree)
                 src = ast.unparse(tree)
                 compile(src, p, "exec")
